@@ -679,7 +679,7 @@ def relocate(isa, part, r, stat):
                         rcls = arch.isa.relocation_map[rel.name]
                         ro = rcls(None, offset=rel.offset, addend=rel.addend)
                         n = ro.size()
-                        piece = ro.apply(off + d, bytearray(buf[rel.offset:rel.offset + n]), off + rel.offset)
+                        piece = ro.apply(off + d + rel.addend, bytearray(buf[rel.offset:rel.offset + n]), off + rel.offset)   # S + A, as the linker does
                         assert len(piece) == n
                         buf[rel.offset:rel.offset + n] = piece
                     data = bytes(buf)
